@@ -4,10 +4,10 @@
  * nv_titer, nv_fiter, nv_siter, nv_selbuf) are generated from the class definitions. */
 #include "base.h"
 
-/* std::vector<T>: `p` points to the n elements (a separate object, so that one element can be an assigns target) */
-struct nv_slots { struct nv_opaque* p; uint64_t n; };
-struct nv_selbuf;
-struct nv_selbufs { struct nv_selbuf* p; uint64_t n; };
+/* std::vector<T> of per-thread buffers: `g` is the footprint of ONE ghost element, index nv_gs (nondeterministic at entry),
+ * so "element nv_gs is written only if nv_gs == tnum" holds for every element; n = size() */
+struct nv_slots { struct nv_opaque g; uint64_t n; };
+#define NV_SELBUFS struct nv_selbufs { struct nv_selbuf g; uint64_t n; };    /* (emitted after the generated struct nv_selbuf) */
 struct nv_generator;
 struct nv_gens { struct nv_generator** p; uint64_t n; };
 struct nv_cb { char unused; };          /* std::function<...>: the caller's operator, opaque */
